@@ -218,7 +218,7 @@ func (c *Check) runJob(j *Job) (jr *JobResult) {
 }
 
 func defaultKey(j *Job, f *AssertFail) string {
-	return j.Func + ": " + f.Msg
+	return j.Label + ": " + f.Msg
 }
 
 // collect turns raw results into findings and inconclusive notes.
